@@ -56,7 +56,7 @@ def dtest(ctx, shard, nshards):
     rnd = random.Random(ctx.sub_seed("c08t", shard))
     a0, b0 = slice_range(R.NMIN + 60, R.NMAX - 60, shard, nshards)
     B = [x for x in boundary() if a0 <= x < b0]
-    N = 420 if not ctx.thorough else 20000
+    N = 2500 if not ctx.thorough else 30000
     for i in range(N):
         rep = rnd.choice(list(REP))
         a = rnd.choice(B) if rnd.random() < 0.7 else rnd.randrange(a0, b0)
@@ -113,7 +113,7 @@ def dgrep(ctx, shard, nshards):
     rnd = random.Random(ctx.sub_seed("c08g", shard))
     a0, b0 = slice_range(R.NMIN + 60, R.NMAX - 60, shard, nshards)
     B = [x for x in boundary() if a0 <= x < b0]
-    for it in range(40 if not ctx.thorough else 1500):
+    for it in range(250 if not ctx.thorough else 3000):
         rep = rnd.choice(("ymd", "ymd", "ymcw", "ywd", "yd", "bizda"))
         a = rnd.choice(B) if rnd.random() < 0.7 else rnd.randrange(a0, b0)
         withtime = rep in ("ymd", "ymcw", "ywd") and rnd.random() < 0.35
@@ -188,7 +188,7 @@ def dsort(ctx, shard, nshards):
     sub = Sub("c08.dsort")
     V = Viol(sub, "C08")
     rnd = random.Random(ctx.sub_seed("c08s", shard))
-    for it in range(25 if not ctx.thorough else 400):
+    for it in range(150 if not ctx.thorough else 2000):
         kind = rnd.choice(("d", "d", "dt", "t"))
         lines = _sortfile(rnd, kind)
         rev = rnd.random() < 0.4
